@@ -1,13 +1,13 @@
 #!/bin/bash
-# tools/r7run.sh <ID> [prop]: run a check against the round-7 patch of <ID> on a scratch worktree
+# tools/r7run.sh <ID> [prop]: run a check against the stored round-7 seed <ID>h on a scratch worktree (VERIF_REPO)
 ID=$1; PROP=${2:-$1}; W=/tmp/r7run_${ID}_$PROP
 git -C /repo worktree prune; rm -rf $W
 git -C /repo worktree add -q --detach $W HEAD || exit 2
-( cd $W && git apply /tmp/seed7/$ID/patch.diff ) || { echo "patch does not apply"; git -C /repo worktree remove --force $W; exit 2; }
+( cd $W && git apply /verif/seeded/${ID}h/patch.diff ) || { echo "patch does not apply"; git -C /repo worktree remove --force $W; exit 2; }
 cd /verif
-VERIF_REPO=$W ./check $PROP --tier quick > /tmp/seed7/$ID/run_$PROP.log 2>&1; RC=$?
-echo "violations: $(grep -c '^VIOLATION' /tmp/seed7/$ID/run_$PROP.log) deductive: $(grep '^VIOLATION' /tmp/seed7/$ID/run_$PROP.log | grep -vc -- '-native-')"
-grep "^VIOLATION\|CHECKER-ERROR\|^\[" /tmp/seed7/$ID/run_$PROP.log | head -6 | cut -c1-240
+VERIF_REPO=$W ./check $PROP --tier quick > /tmp/r7run_${ID}_$PROP.log 2>&1; RC=$?
+echo "violations: $(grep -c '^VIOLATION' /tmp/r7run_${ID}_$PROP.log) deductive: $(grep '^VIOLATION' /tmp/r7run_${ID}_$PROP.log | grep -vc -- '-native-')"
+grep "^VIOLATION\|CHECKER-ERROR\|^\[" /tmp/r7run_${ID}_$PROP.log | head -6 | cut -c1-240
 echo "seed=$ID prop=$PROP exit=$RC"
 git -C /repo worktree remove --force $W
 git -C /verif checkout -q -- evidence/$PROP.json 2>/dev/null
